@@ -614,3 +614,38 @@ mod tests {
         }
     }
 }
+
+/// Verification hook (only with `--cfg azure_guestproxyagent_verif`): the key/value encoders of the
+/// eBPF maps, reachable without a loaded BPF object.
+#[cfg(azure_guestproxyagent_verif)]
+pub mod verif_encoders {
+    use super::ebpf_obj::{
+        destination_entry, sock_addr_audit_entry, sock_addr_audit_key,
+        sock_addr_skip_process_entry,
+    };
+    use crate::redirector::AuditEntry;
+
+    pub fn policy_entry(ipv4: u32, port: u16) -> [u32; 6] {
+        destination_entry::from_ipv4(ipv4, port).to_array()
+    }
+
+    pub fn skip_entry(pid: u32) -> [u32; 1] {
+        sock_addr_skip_process_entry::from_pid(pid).to_array()
+    }
+
+    pub fn audit_key(source_port: u16) -> [u32; 2] {
+        sock_addr_audit_key::from_source_port(source_port).to_array()
+    }
+
+    /// same field mapping as `BpfObject::lookup_audit`
+    pub fn audit_entry(value: [u32; 5]) -> AuditEntry {
+        let audit_value = sock_addr_audit_entry::from_array(value);
+        AuditEntry {
+            logon_id: audit_value.logon_id as u64,
+            process_id: audit_value.process_id,
+            is_admin: audit_value.is_root as i32,
+            destination_ipv4: audit_value.destination_ipv4,
+            destination_port: audit_value.destination_port as u16,
+        }
+    }
+}
